@@ -461,6 +461,8 @@ def c04_alphabet(g, slots):
         A.append(g.release(slot))
     A += [g.call(0, F1, 1), g.call(0, F1, 0), g.call(2, F1, 1), g.call(2, F1, 0), g.call(3, F1, 1), g.call(0, F2, 1, 1), g.call(0, F2, 0, 1)]
     A += [g.op(OP_DESTROY_MOCK, obj=0), g.op(OP_DESTROY_MOCK, obj=2), g.op(OP_DESTROY_MOCK, obj=3), g.op(OP_MOVE_MOCK, obj=2, k1=3)]
+    # lifetimes that end by stack unwinding report like any other end of scope
+    A += [g.op(OP_RELEASE, slot=slots[0], k1=1), g.op(OP_DESTROY_MOCK, obj=0, k1=1)]
     # the reporter is user code: one that tears the mock down when the first non-fatal report arrives
     A += [g.op(OP_ARM_REPORTER, obj=0), g.op(OP_ARM_REPORTER, obj=2)]
     return A
@@ -577,6 +579,7 @@ def c13_alphabet(g, slots, nw):
     A = []
     for w in range(nw):
         A += [g.op(OP_NEW_WATCHED, obj=w), g.op(OP_DELETE_WATCHED, obj=w)]
+    A.append(g.op(OP_DELETE_WATCHED, obj=0, k1=1))   # destroyed by stack unwinding (a local of a scope left by an exception): same reports
     for slot in slots:
         for w in range(nw):
             A.append(g.monitor(slot, g.shape(mock='W', seqar=0), w=w))
